@@ -182,6 +182,96 @@ def outcome_user_behaviour(mode: int, exc_idx: int, where: int, v: int, d: int):
     h.end()
 
 
+# ---------------------------------------------------------------- exception SHAPES: what the exception was constructed with
+class _Custom(Exception):
+    pass
+
+
+class _StrRaises(Exception):
+    def __str__(self):
+        return "rendered"
+
+
+SHAPES = ["one ASCII string", "no arguments", "one int", "one tuple", "two arguments (str, int)", "a string with a lone surrogate (os.fsdecode of an undecodable name)",
+          "one non-ASCII string", "one None", "one bytes"]
+
+
+def _conc(i, n):
+    """the concrete value of a symbolic index (forks once per value instead of building a symbolic selection)"""
+    for k in range(n):
+        if i == k:
+            return k
+    return n - 1
+
+
+def make_shaped(cls_i, shape):
+    cls_i, shape = _conc(cls_i, 4), _conc(shape, 9)
+    cls = [ValueError, KeyError, _Custom, _StrRaises][cls_i]
+    args = [("plain",), (), (42,), (("a", 1),), ("m", 7), ("caf" + chr(0xDCE9) + ".txt",), ("caf" + chr(0xE9) + chr(0x1D11E),), (None,), (b"raw",)][shape]
+    return cls(*args)
+
+
+def error_object_well_formed(e):
+    h.check(isinstance(e, dict) and set(e) <= {"ErrorMessage", "ErrorType", "ErrorData", "StackTrace"}, "error object has unexpected keys")
+    for k in ("ErrorMessage", "ErrorType", "ErrorData"):
+        h.check(e.get(k) is None or isinstance(e[k], str), f"Error.{k} of the outcome is not a string")
+    st = e.get("StackTrace")
+    h.check(st is None or (isinstance(st, list) and all(isinstance(x, str) for x in st)), "Error.StackTrace of the outcome is not a list of strings")
+
+
+@h.lemma(timeout=400, thorough_timeout=1200, funcs=FUNCS + ["state.ExecutionState._calculate_operation_size (the real one)", "operation.step / operation.child error paths"],
+         reach=("end", "in_step", "in_child", "surrogate"),
+         bounds="user code raises ValueError / KeyError / a custom exception / a custom exception with its own __str__, constructed with one of 9 argument shapes "
+                "(ASCII str, none, int, tuple, (str,int), lone-surrogate str, non-ASCII str, None, bytes), at top level / inside a step / inside a child context / inside a "
+                "step inside a child context; the REAL size accounting runs on the resulting FAIL updates; one invocation")
+def outcome_exception_shapes(cls_i: int, shape: int, where: int):
+    """
+    pre: 0 <= cls_i < 4 and 0 <= shape < 9 and 0 <= where < 4
+    post: True
+    """
+    import json as real_json
+    from aws_durable_execution_sdk_python.state import ExecutionState
+    cls_i, shape, where = _conc(cls_i, 4), _conc(shape, 9), _conc(where, 4)
+
+    def boom(*_a):
+        raise make_shaped(cls_i, shape)
+
+    def handler(event, ctx):
+        if where == 0:
+            boom()
+        if where == 1:
+            return ctx.step(boom, name="S", config=NO_RETRY)
+        if where == 2:
+            return ctx.run_in_child_context(boom, name="CH")
+        return ctx.run_in_child_context(lambda c2: c2.step(boom, name="S", config=NO_RETRY), name="CH")
+
+    stub = ExecutionState.__dict__["_calculate_operation_size"]
+    ExecutionState._calculate_operation_size = ExecutionState.__dict__["_orig_calculate_operation_size"]
+    try:
+        be = Backend()
+        kind, val = one_invocation(handler, be)
+    finally:
+        ExecutionState._calculate_operation_size = stub
+    if where == 1:
+        h.reach("in_step")
+    if where >= 2:
+        h.reach("in_child")
+    if shape == 5:
+        h.reach("surrogate")
+    h.check(kind == "out", "an ordinary user exception made the wrapper raise: " + (type(val).__name__ if kind == "raise" else ""))
+    well_formed(val)
+    h.check(val["Status"] == "FAILED" and "Error" in val, "an ordinary user exception must give FAILED with an error object")
+    error_object_well_formed(val["Error"])
+    try:
+        real_json.dumps(val)
+    except (TypeError, ValueError):
+        h.check(False, "the outcome cannot be rendered as JSON by the Lambda runtime")
+    if where >= 1:
+        fails = [u for (_i, u) in be.stream if u.action.value == "FAIL"]
+        h.check(len(fails) == (1 if where < 3 else 2), "the failure must be recorded once per failing operation")
+    h.end()
+
+
 def expected_category(status, code_sel, msg_sel, with_error):
     code = ["InvalidParameterValueException", "ThrottlingException", None][code_sel]
     msg = ["Invalid Checkpoint Token: expired", "something else", None][msg_sel]
